@@ -56,11 +56,15 @@ def gen_case(rng):
     kind, vals = gen_values(rng, n)
     n = len(vals)
     rng.shuffle(vals)
-    return {
+    case = {
       "kind": "single", "gen": kind, "vals": vals, "fails": gen_fails(rng, n), "objective": rng.choice(OBJ),
       "vars": [rng.choice([0.0, 10 ** rng.uniform(-14, 6)]) for _ in range(n)],
       "ws": [rng.uniform(-0.2, 0.2) for _ in range(3)],
     }
+    if rng.random() < 0.15:
+      case["vars"] = [float(rng.choice([0, 0, 1, 2, 5])) for _ in range(n)]
+      case["int_vars"] = True
+    return case
   n = rng.choice([1, 2, 4, 9])
   k = rng.choice([1, 2, 3])
   cols = []
@@ -93,8 +97,10 @@ def check_single(ctx, case):
   skip = bool(smi.skip)
   fwd = numpy.asarray(smi.relative_objective_value(va), dtype=float)
   inv = numpy.asarray(smi.undo_scaling(numpy.array(ws)), dtype=float)
-  fvar = numpy.asarray(smi.relative_objective_variance(numpy.array(vars_)), dtype=float)
-  ivar = numpy.asarray(smi.undo_scaling_variances(numpy.array(vars_)), dtype=float)
+  # variances may arrive as an integer array (JSON integers): the result must be the same numbers
+  var_in = numpy.array([int(v) for v in vars_], dtype=numpy.int64) if case.get("int_vars") else numpy.array(vars_)
+  fvar = numpy.asarray(smi.relative_objective_variance(var_in.copy()), dtype=float)
+  ivar = numpy.asarray(smi.undo_scaling_variances(var_in.copy()), dtype=float)
   lies = [float(smi.compute_lie_value(m)) for m in LIES]
   nf = [v for v, f in zip(vals, fails) if not f]
   exact_nf = [Fraction(v) for v in nf]
